@@ -43,6 +43,11 @@ func (fr *Frame) callName(c *ssa.CallCommon, callee *ssa.Function) string {
 			}
 		}
 	}
+	// a function-valued parameter: named after the function and the parameter (contracts may be attached to it:
+	// `//@ func param.AcquireWriteLock.fn`); they are assumptions about the callbacks callers pass
+	if p, ok := c.Value.(*ssa.Parameter); ok && p.Parent() != nil {
+		return "param." + p.Parent().Name() + "." + p.Name()
+	}
 	return "dyn." + exprName(c.Value)
 }
 
@@ -132,6 +137,23 @@ func (fr *Frame) doCallWith(c *ssa.CallCommon, instr ssa.Instruction, fnVal Val,
 	}
 
 	hooks := fr.matchingHooks(name, op)
+	if c.StaticCallee() == nil && callee != nil && !c.IsInvoke() {
+		// a dynamic call whose target is statically known here (a callback passed into an inlined function):
+		// `on call` clauses written against the syntactic name (param.F.p, field.T.f) apply as well
+		if syn := fr.callName(c, nil); syn != name {
+			for _, h := range fr.matchingHooks(syn, op) {
+				dup := false
+				for _, x := range hooks {
+					if x == h {
+						dup = true
+					}
+				}
+				if !dup {
+					hooks = append(hooks, h)
+				}
+			}
+		}
+	}
 	ord := 0
 	if len(hooks) > 0 || true {
 		fr.rootFrame().callOrd[name]++
@@ -372,6 +394,18 @@ func (fr *Frame) staticCall(callee *ssa.Function, bindings []Val, c *ssa.CallCom
 	if res, npc, ok := fr.modelExternal(callee, full, c, args, st, pc, pos, rt); ok {
 		return res, npc
 	}
+	// A modular contract cannot describe what a callback passed by the caller does (its writes to the caller's
+	// captured variables, its result): when a statically known closure is passed, the body is inlined instead
+	// (with the callee's loop invariants), and the callback runs where the callee calls it.
+	passesClosure := false
+	for _, a := range args {
+		if a.Clo != nil && a.Clo.Fn != nil && a.Clo.Fn.Parent() != nil {
+			passesClosure = true
+		}
+	}
+	if passesClosure && e.fnInModule(callee) && callee.Blocks != nil && e.Contracts[key] != nil && fr.depth < maxInlineDepth {
+		return fr.inline(callee, bindings, args, st, pc)
+	}
 	if fc := e.Contracts[key]; fc != nil && !fc.Has("inline") && (len(fc.Of("requires"))+len(fc.Of("ensures"))+len(fc.Of("modifies")) > 0 || fc.Has("pure") || fc.Has("opaque") || fc.Has("havoc")) {
 		if fc.Assumed && !fc.Has("pure") && !e.fnInModule(callee) {
 			// assumed contract of an external taking interface-boxed pointers (binary.Read(r, bo, &x)): the
@@ -484,6 +518,7 @@ func (fr *Frame) inline(callee *ssa.Function, bindings []Val, args []Val, st *St
 		}
 	}
 	start := st.clone()
+	sub.entry = start.clone() // old()/unchanged() in the inlined function's loop invariants refer to its own entry
 	sub.run(start, pc)
 	rt := callee.Signature.Results()
 	if len(sub.exits) == 0 {
@@ -646,6 +681,10 @@ func (fr *Frame) applyContract(fc *FuncContract, callee *ssa.Function, args []Va
 	env2.old = old
 	env2.bindResults(callee, rt, res)
 	for _, cl := range fc.Of("ensures") {
+		if len(cl.Tags) == 0 && !fc.Assumed && callee != nil && e.fnInModule(callee) {
+			// a clause of an untagged block is never an obligation of any property: it is an assumption about a module function
+			vc.UsedAssumed["unchecked (untagged) postcondition of "+fc.Key+" assumed by its callers: "+cl.Expr.String()] = true
+		}
 		if freshOnHeap(cl.Expr) {
 			// fresh(x.f) in an exported postcondition would contradict the allocation facts of the caller
 			// (its allocation array does not record the callee's allocations): must be a `proves` clause
